@@ -12,6 +12,7 @@ Clauses
 Track and composition equality is a differential oracle evaluated in every reached state: the object
 compares equal to one rebuilt independently from the model state and unequal to perturbed rebuilds.
 """
+import copy
 from fractions import Fraction
 
 from mc import engine
@@ -280,7 +281,10 @@ def do_add(track, ref, S, via, kind, vlabel, check, where=""):
     S.count("accepted" if want else "refused")
     if want and opened and len(ref.bars) > 1:
         S.count("bar_opened_by_add")
-    if got is not want:
+    if via == "plus" and not isinstance(got, bool):
+        # the statement speaks of items "reported False"; what '+' evaluates to is not specified
+        S.count("plus_result_not_a_bool_not_judged")
+    elif got is not want:
         S.problem(where + "%s(%s, %s) return value" % (via, kind, label), want, got)
         return
     if not want:
@@ -292,7 +296,7 @@ def do_add(track, ref, S, via, kind, vlabel, check, where=""):
 
 
 BARS = [("C", (4, 4), []), ("G", (3, 4), []), ("f", (6, 8), []), ("D", (2, 4), [("str", "4"), ("rest", "4")]),
-        ("Bb", (0, 0), []), ("A", (5, 4), [("note", "2")])]
+        ("Bb", (0, 0), [])]
 
 
 def do_add_bar(track, ref, S, i, via):
@@ -322,9 +326,8 @@ def chord_content(leaf):
 def do_chords(track, ref, S, chords, vlabel, check, where=""):
     label, vfloat, vexact = value_item(vlabel)
     leaves = T.flatten_chords(chords, vexact)
-    n_before = len(ref.items())
-    import copy
-    track.from_chords(copy.deepcopy(chords), vfloat)
+    # under the deterministic step horizon: the bar-line splitting must terminate
+    engine.with_step_budget(track.from_chords, (copy.deepcopy(chords), vfloat), budget=20000)
     requested = Fraction(0)
     for leaf, val in leaves:
         length = 1 / val
@@ -619,7 +622,9 @@ class GateSpec(BfsSpec):
             S.count("gate_in_range_accepted" if want else "gate_in_range_no_room")
             if instr is not None and want:
                 S.count("gate_in_range_accepted_with_instrument")
-            if got is not want:
+            if act[0] == "plus_note" and not isinstance(got, bool):
+                S.count("plus_result_not_a_bool_not_judged")
+            elif got is not want:
                 S.problem(site + " return value", want, got)
             S.outcome((self.instrument, form, in_range, want))
 
